@@ -7,7 +7,7 @@ TU('date-core', 'lib/date-core.c', LIB_CFLAGS,
    # (file, identifier) -- the driver checks on every run that they are never written
    static_tables=[('lib/yd.c', '__mon_yday'), ('lib/ymcw.c', 'ycum'), ('lib/bizda.c', 'tbl')])
 
-DATE = ['C01', 'C02', 'C03', 'C04', 'C05', 'C07', 'C08']
+DATE = ['C01']
 U = 'unsigned int'
 
 G('dc.__leapp', 'date-core', '__leapp', DATE, ins=[(U, 'in_y')], call='__leapp(in_y)', ret='bool', solvers=['cvc5', 'z3', 'cadical'])
@@ -52,7 +52,7 @@ YD_IN = dict(ins=[('uint32_t', 'in_u')], setup='dt_yd_t d; d.u = in_u;', sweep={
 YMCW_IN = dict(ins=[('uint32_t', 'in_u')], setup='dt_ymcw_t d; d.u = in_u;', sweep={'in_u': '((1598 + RND % 2500) << 10) | ((RND % 14) << 6) | ((RND % 7) << 3) | (RND % 8)'})
 YWD_IN = dict(ins=[('uint32_t', 'in_u')], setup='dt_ywd_t d; d.u = in_u;', sweep={'in_u': '((1598 + RND % 2500) << 13) | ((RND % 55) << 6) | ((RND % 8) << 3) | (RND % 8)'})
 DAISY_IN = dict(ins=[('dt_daisy_t', 'in_n')], sweep={'in_n': 'RND % 911300'})
-SV = ['cadical', 'cvc5']
+SV = ['cadical']
 ALL1 = [('all', '1')]
 Y8 = ALL1
 def wsplit(yexpr):
